@@ -171,6 +171,16 @@ M = [
     ("C20", "call-without-mutex", "fp.go",
      "\tcurrySelf.callM.Lock()\n\tif !currySelf.isDone.Get() {",
      "\tif !currySelf.isDone.Get() {"),
+    # zero values are values like any other
+    ("C10", "publish-skips-the-zero-value", "publisher.go",
+     "func (publisherSelf *PublisherDef[T]) Publish(result T) {\n",
+     "func (publisherSelf *PublisherDef[T]) Publish(result T) {\n\tif any(result) == any(*new(T)) {\n\t\treturn\n\t}\n"),
+    ("C14", "yieldfrom-does-not-send-the-zero-value", "cor.go",
+     "func (corSelf *CorDef[T]) YieldFrom(target *CorDef[T], in T) T {\n\tvar result T\n",
+     "func (corSelf *CorDef[T]) YieldFrom(target *CorDef[T], in T) T {\n\tvar result T\n\tif any(in) == any(result) {\n\t\treturn result\n\t}\n"),
+    ("C16", "pmap-drops-zero-results", "fp.go",
+     "func PMap[T any, R any](f TransformerFunctor[T, R], option *PMapOption, list ...T) []R {\n",
+     "func PMap[T any, R any](f TransformerFunctor[T, R], option *PMapOption, list ...T) []R {\n\tif len(list) > 0 && any(list[0]) == any(*new(T)) {\n\t\tlist = list[1:]\n\t}\n"),
     # pure clauses of C20 (input generation inside the C20 check, see harness/c20_pure.go)
     ("C20", "compose-applies-left-to-right", "fp.go",
      "\t\treturn f(Compose(nextFnList...)(s...)...)",
